@@ -1,7 +1,7 @@
 (* C17 -- each received datagram is decoded exactly once, intact, or counted as dropped.
-   Statements only; proofs in Proofs/RecvP.v. *)
+   Statements only; proofs in Proofs/RecvP.v, Proofs/MonitorP.v. *)
 From Coq Require Import List NArith Bool Permutation.
-From GF Require Import Model.First Model.Recv Spec.TraceSpec Proofs.RecvP.
+From GF Require Import Model.First Model.Recv Spec.TraceSpec Proofs.RecvP Proofs.MonitorP.
 Import ListNotations.
 
 (* for EVERY configuration (readers, workers, queue capacity incl. rendezvous, blocking or not) and
@@ -34,14 +34,44 @@ Theorem c17_blocking_no_drop : forall c readers workers sched,
 Proof. exact blocking_no_drop. Qed.
 Print Assumptions c17_blocking_no_drop.
 
-(* the monitor that judges the real receiver's traces accepts the model's traces: evaluated here on
-   schedules with drops, rendezvous hand-off and buffer reuse (soundness for ALL schedules is not proved:
-   _partial) *)
+(* monitor soundness: the monitor that judges the REAL receiver's event traces (Spec/TraceSpec.v, run by
+   the check on what utils/udp.go emits through the verif hooks) accepts every trace the model receiver
+   can produce -- every configuration, EVERY schedule -- and when nothing is in flight its final
+   accounting test (reads = ended + dropped, nothing left in flight or decoding) passes.  A rejected
+   trace is therefore not a behaviour of the model receiver. *)
+Theorem c17_monitor_sound : forall c readers workers sched,
+  let r := rrun c (rinit readers workers) sched in
+  (exists m, mrun (blocking c) mon0 (snd r) = Some m) /\
+  (quiescent (fst r) = true -> trace_ok (blocking c) (snd r) = true).
+Proof. exact monitor_sound. Qed.
+Print Assumptions c17_monitor_sound.
+
+(* what acceptance means, for ANY event trace (the real receiver's included): no datagram id is decoded
+   twice or both decoded and dropped, every started decoder call ended exactly once, every read is
+   decoded or counted as dropped, and in blocking mode nothing is dropped.  (That no read lands in a
+   buffer still owned by the queue or a running decoder call is the ERead clause of mstep itself.) *)
+Theorem c17_monitor_meaning : forall b es,
+  trace_ok b es = true ->
+  NoDup (starts es ++ drops es) /\ length (starts es) = nends es /\
+  nreads es = nends es + length (drops es) /\ (b = true -> drops es = []).
+Proof. exact monitor_meaning. Qed.
+Print Assumptions c17_monitor_meaning.
+
+(* non-vacuity: a schedule with drops, rendezvous hand-off and buffer reuse reaches quiescence *)
 Definition sched1 : list action :=
   [ARead 0; ARead 1; ADispatch 0; ADispatch 1; ARead 0; ADispatch 0; ADequeue 0; AFinish 0; ARead 1; ADequeue 0;
    ADispatch 1; ADequeue 1; AFinish 0; AFinish 1; ADequeue 0; AFinish 0].
-Example c17_monitor_accepts_model_partial :
+Example c17_monitor_nonvacuous :
   let c := {| qcap := 1; blocking := false |} in
   let '(s, es) := rrun c (rinit 2 2) sched1 in
   trace_ok false es = true /\ quiescent s = true /\ dropped s = [2; 1] /\ decoded s = [3; 0].
+Proof. vm_compute. repeat split. Qed.
+
+(* the monitor is not trivially accepting: a buffer read into while a decoder call still runs on it,
+   a datagram decoded twice, and a drop in blocking mode are each rejected *)
+Example c17_monitor_rejects :
+  trace_ok false [ERead 0; EStart 0 0; ERead 0; EEnd 0] = false /\
+  trace_ok false [ERead 0; EStart 0 0; EEnd 0; ERead 0; EStart 0 0; EEnd 0] = false /\
+  trace_ok true [ERead 0; EDrop 0 0] = false /\
+  trace_ok false [ERead 0; ERead 1; EStart 0 0; EEnd 0] = false.
 Proof. vm_compute. repeat split. Qed.
